@@ -1,56 +1,8 @@
 import PV.C20.Lemmas.Literal
+import PV.C20.Lemmas.FieldEq
 /-! C20 helper lemmas — model driver: lengths decrease, fuel is irrelevant, fuel-free equations for `from_str`. -/
 namespace PV.C20
 open Model
-
-theorem specC_length (b : List Nat) : ∀ (n : Bool) (l r : List Nat), specC n b = some (l, r) → r.length < b.length := by
-  induction b with
-  | nil => intro n l r h; simp [specC] at h
-  | cons c rest ih =>
-    intro n l r h
-    simp only [specC] at h
-    split at h
-    · split at h
-      · cases h
-      · cases hx : specC true rest with
-        | none => simp [hx, cons1] at h
-        | some p => simp [hx, cons1] at h; have := ih true p.1 p.2 hx; rw [h.2] at this; simp; omega
-    · split at h
-      · split at h
-        · cases hx : specC false rest with
-          | none => simp [hx, cons1] at h
-          | some p => simp [hx, cons1] at h; have := ih false p.1 p.2 hx; rw [h.2] at this; simp; omega
-        · simp at h; rw [h.2]; simp
-      · cases hx : specC n rest with
-        | none => simp [hx, cons1] at h
-        | some p => simp [hx, cons1] at h; have := ih n p.1 p.2 hx; rw [h.2] at this; simp; omega
-
-theorem MF_length (b : List Nat) (br : Bool) (f : Field) (r : List Nat) (h : MF br b = some (f, r)) :
-    r.length < b.length := by
-  unfold MF at h
-  cases hx : specC false b with
-  | none => simp [hx] at h
-  | some p =>
-    rw [hx] at h
-    simp only [Option.bind_some] at h
-    cases hz : (pibC false br p.1).bind (fun q => finishC q.1 q.2) with
-    | none => rw [hz] at h; simp at h
-    | some g =>
-      rw [hz] at h; simp at h
-      have := specC_length b false p.1 p.2 hx
-      rw [h.2] at this; exact this
-
-theorem parseSpec_length (t : List Nat) (f : Field) (r : List Nat) (h : accepted (parseSpec t) = some (f, r)) :
-    r.length < t.length := by
-  cases t with
-  | nil => simp [parseSpec] at h
-  | cons c b =>
-    by_cases hc : c = 123
-    · subst hc
-      rw [parseSpec_eq] at h
-      have := MF_length b false f r h
-      simp; omega
-    · simp [parseSpec, hc] at h
 
 /-- one iteration of the driver, through `litRun` -/
 theorem parseStep_eq (t : List Nat) (ht : t ≠ []) :
